@@ -172,6 +172,7 @@ class Structured:
             st = self.on_expr(st, s.iter, s)
         head = st
         breaks = []
+        last_back = None
         for _ in range(MAX_ITER):
             self._loops.append({'break': [], 'continue': []})
             cur = self.copy(head)
@@ -184,6 +185,7 @@ class Structured:
             out = self.block(s.body, body_in) if body_in is not None else None
             frame = self._loops.pop()
             back = self._join_all([out] + frame['continue'])
+            last_back = back
             new = self._join(head, back)
             breaks = frame['break']
             if self.equal(new, head):
@@ -191,7 +193,9 @@ class Structured:
             head = new
         else:
             raise AnalysisError('loop fixpoint not reached at line %d' % s.lineno)
-        if is_for:
+        if is_for and at_least_once(s.iter) and last_back is not None:
+            exit_st = self.copy(last_back)      # `for i in range(25)`: the body has run when the loop is left normally - no zero-trip path
+        elif is_for:
             exit_st = self.copy(head)
         else:
             exit_st = self.on_expr(self.copy(head), s.test, s)
@@ -199,6 +203,15 @@ class Structured:
         if s.orelse and exit_st is not None:
             exit_st = self.block(s.orelse, exit_st)
         return self._join_all([exit_st] + breaks)
+
+
+def at_least_once(it):
+    """range(k) / range(a, b) with integer literals and at least one element"""
+    if isinstance(it, ast.Call) and isinstance(it.func, ast.Name) and it.func.id == 'range' and not it.keywords and 1 <= len(it.args) <= 2 \
+            and all(isinstance(a, ast.Constant) and isinstance(a.value, int) and not isinstance(a.value, bool) for a in it.args):
+        vals = [a.value for a in it.args]
+        return (vals[0] >= 1) if len(vals) == 1 else (vals[1] > vals[0])
+    return False
 
 
 def is_flag_test(test, flag_names):
